@@ -321,6 +321,10 @@ def run_check(pid, P, tier, seed, replay, t0):
     # 2./3. proofs
     ok, log, fails, dt_make = coq_build(P.get('vo', []) + ['Props/%s.vo' % pid], P.get('coq_timeout', 1500))
     obligations, discharged, problems, names, pf = props_audit(pid, P.get('coq_timeout', 1500))
+    # further pinned-statement files this property relies on (e.g. the monitor-soundness theorems)
+    for extra in P.get('extra_props', []):
+        o2, d2, p2, n2, pf2 = props_audit(extra, P.get('coq_timeout', 1500))
+        obligations += o2; discharged += d2; problems += p2; names += ['%s.%s' % (extra, n) for n in n2]; pf += pf2
     supporting = count_supporting(pid)
     bad_tokens = forbidden_audit()
     proof_ok = ok and not problems and not bad_tokens and discharged == obligations
